@@ -25,7 +25,7 @@ func init() {
 		Explanation: "PATH rules over listener.receiveRetry / listener.Listen / Advertiser.handle / Monitor.handle: " +
 			"R-C09-1 every returned message is gated by hop limit == 255; R-C09-2 an invalid message is counted once and dropped; " +
 			"R-C09-3 loop-carried delta of the retry counter is 0 on every back edge through the invalid-message branch (only timeouts consume the budget); " +
-			"R-C09-4 other message types are counted invalid once and ignored (no RA build, verify or hook); R-C09-5 an ignored message cannot end the receive loop R-C09-5 every success path of dialNDP enables hop-limit delivery (SetControlMessage(FlagHopLimit, true)) and installs an ICMPv6 filter that passes only types 133 and 134; R-C09-6 no module code allocates an ipv6.ControlMessage, writes its HopLimit, or implements Conn.ReadFrom (the hop limit reaches the listener as the kernel reported it); R-C09-7 nothing on the receive path indexes an array or slice with the received message's type.",
+			"R-C09-4 other message types are counted invalid once and ignored (no RA build, verify or hook); R-C09-5 an ignored message cannot end the receive loop R-C09-5 every success path of dialNDP enables hop-limit delivery (SetControlMessage(FlagHopLimit, true)) and installs an ICMPv6 filter that passes only types 133 and 134; R-C09-6 no module code allocates an ipv6.ControlMessage, writes its HopLimit, or implements Conn.ReadFrom (the hop limit reaches the listener as the kernel reported it); R-C09-7 nothing on the receive path indexes an array or slice with the received message's type. R-C09-2 also: a path of receiveRetry that loops after a successful ReadFrom must have found HopLimit != 255 (no other ground for discarding a read message).",
 		Assumptions: []string{
 			"Go type checker and go/ssa construction are correct",
 			"path enumeration cuts loop back edges: each loop body is analysed for an arbitrary iteration (loop phis are symbols)",
